@@ -24,6 +24,10 @@ var c11FaultExprs = []string{
 	// regexes whose only defect is a counted repetition; printf directives with a flag but no width, unknown flags, precision
 	"(\"a\" ~ \"a{2,1}\")", "(\"a\" ~ /a{1001}/)", "(\"x\" !~ \"b{3,2}\")", "printf(\"%-s\", \"a\")", "printf(\"%-f\", 1)", "printf(\"%-v\", 1)", "printf(\"%-%\")",
 	"printf(\"%+s\", \"a\")", "printf(\"%.2f\", 1)", "printf(\"%5.2f\", 1)", "printf(\"%*s\", 1, \"a\")",
+	// an index that is neither a number nor a string, on every kind of receiver; a printf that fails after text or
+	// satisfied directives (nothing of it is written)
+	"garr[true]", "\"str\"[null]", "(5)[[1]]", "garr[uqnever]", "garr[{}]", "fo[true]", "garr[/r/]",
+	"printf(\"x=%s y=%s\\n\", \"1\")", "printf(\"ab%q\", 1)", "printf(\"a%sb%5\", \"z\")", "printf(\"head %s %f tail\", \"s\", \"notnum\")",
 	// arguments a method must refuse
 	"fo.pluck(true)", "fo.pluck(null)", "fo.pluck([1])", "fo.pluck(uqnever)", "garr.push(1, 2)", "garr.pop(1)", "\"a\".split(1)",
 	// a container compared with itself; a malformed regex at a site that has already matched with a good one
@@ -72,6 +76,8 @@ func checkC11(c *Ctx) {
 		Pos    int      `json:"pos"`
 		Splice int      `json:"splice"`
 		Toks   []string `json:"toks"`
+		// the sequence is ill-formed only while it stays on one line (a statement follows the "}" of an object literal)
+		OneLine bool `json:"oneline"`
 	}
 	var sjobs []Job
 	var smeta []string
@@ -82,7 +88,11 @@ func checkC11(c *Ctx) {
 			VecDecode(raw, &v)
 			flat := strings.Join(v.Toks, " ")
 			lines := strings.ReplaceAll(strings.ReplaceAll(flat, " ; ", "\n"), "} ", "}\n")
-			for _, text := range []string{flat, lines} {
+			layouts := []string{flat, lines}
+			if v.Splice == -2 || v.OneLine {
+				layouts = []string{flat} // a deleted ";" is only an error while no line break takes its place
+			}
+			for _, text := range layouts {
 				sjobs = append(sjobs, Job{Kind: "run", Prog: []byte(text), Files: []FileIn{{Name: "in.json", Data: []byte(`[{"a":1},{"a":"a"}]`)}}, Budget: 100000})
 				smeta = append(smeta, fmt.Sprintf("host %d splice %d at %d", v.Host, v.Splice, v.Pos))
 			}
